@@ -424,6 +424,20 @@ func init() {
 			lines := strings.Split(strings.TrimSuffix(string(raw), "\n"), "\n")
 			return ex.stringSlice(lines)
 		},
+		"vpUnlockedGlobalWrites": func(ex *Exec, fn *ssa.Function, a []Value) Value {
+			return ex.st.BVs(64, int64(ex.unlockedGlobalWrites))
+		},
+		"vpLockViolations": func(ex *Exec, fn *ssa.Function, a []Value) Value {
+			// lockset discipline: package-level state that is written after initialisation must
+			// never be read without a lock held
+			n := 0
+			for o := range ex.writtenTagged {
+				if ex.unlockedReads[o] {
+					n++
+				}
+			}
+			return ex.st.BVs(64, int64(n))
+		},
 		"vpNote": func(ex *Exec, fn *ssa.Function, a []Value) Value {
 			ex.observed = append(ex.observed, ex.argStr(a[0]))
 			return nil
